@@ -43,3 +43,13 @@ MUTANTS = [
     M("c19-imm-range", "C19", "immediate int range shrunk", (B, "for i in range(-0x30, 0xa0))", "for i in range(-0x30, 0x9f))")),
     M("c19-kwargs-dict", "C19", "CALL kwargs layout changed consistently", (N, "            kwargs = tuple(kwargs.items())\n            return syncreq(_self, consts.HANDLE_CALLATTR, name, args, kwargs)", "            kwargs = tuple((v, k) for k, v in kwargs.items())\n            return syncreq(_self, consts.HANDLE_CALLATTR, name, args, kwargs)"), (P, "        obj = self._handle_getattr(obj, name)\n        return self._handle_call(obj, args, kwargs)", "        obj = self._handle_getattr(obj, name)\n        return self._handle_call(obj, args, tuple((k, v) for v, k in kwargs))")),
 ]
+
+MUTANTS += [
+    # ---- C08
+    M("c08-revert-fix", "C08", "reply encoding error escapes again (revert of b9a4d49)", (P, "            except Exception:\n                # the result could not be boxed or encoded (nothing was sent yet):\n                # the requester still gets exactly one response - this error\n                self._send_exception(seq, *sys.exc_info())", "            except ZeroDivisionError:\n                pass")),
+    M("c08-double-reply", "C08", "PING answered twice", (P, "    def _handle_ping(self, data):  # request handler\n        return data", "    def _handle_ping(self, data):  # request handler\n        import inspect\n        self._send(consts.MSG_REPLY, inspect.currentframe().f_back.f_locals['seq'], self._box(data))\n        return data")),
+    M("c08-get-not-pop", "C08,C13", "callback looked up with get, not pop", (P, "_callback = self._request_callbacks.pop(seq, None)", "_callback = self._request_callbacks.get(seq, None)")),
+    M("c08-exc-no-reply", "C08", "StopIteration from a handler gets no response", (P, "            if t is KeyboardInterrupt and self._config[\"propagate_KeyboardInterrupt_locally\"]:\n                raise", "            if t is KeyboardInterrupt and self._config[\"propagate_KeyboardInterrupt_locally\"]:\n                raise\n            if t is StopIteration and seq % 7 == 6:\n                return")),
+    M("c08-reply-in-try", "C08", "reply sent inside try: failure of send answered twice", (P, "            res = self._HANDLERS[handler](self, *args)\n        except:", "            res = self._HANDLERS[handler](self, *args)\n            if handler == consts.HANDLE_CALL and type(res) is list:\n                self._send(consts.MSG_REPLY, seq, self._box(res))\n        except:")),
+    M("c08-bad-handler-silent", "C08", "unknown handler id silently ignored", (P, "            handler, args = raw_args\n            args = self._unbox(args)", "            handler, args = raw_args\n            if handler not in self._HANDLERS:\n                return\n            args = self._unbox(args)")),
+]
